@@ -329,7 +329,7 @@ pub fn property(tier: Tier) -> Property {
                 )
             },
             rule: "a reachable e-graph (mixed history with symmetric / redundant / self-referential unions and rewriting), 1-4 patterns, half of them random (depth <= 3, repeated variables, free and bound slots, also unmatched ones) and half obtained from inserted terms by replacing subterms with (often repeated) variables and 0-3 multi-patterns (random ones with 1-3 equations and shared variables, and ones obtained by flattening one or two inserted (sub)terms into up to 5 equations (equal subterms share a variable), sometimes with two variables or two slot names identified); every returned substitution is total, its instance looks up without inserting, multi-pattern equations hold, fingerprint unchanged; non-trivial = at least one match on an e-graph with an effective union; distinct by rendered case",
-            case_timeout_s: tier.pick(120, 600),
+            case_timeout_s: tier.pick(30, 120),
             exhaustive: false,
         }));
     }
